@@ -89,6 +89,9 @@ pub fn text<'text, Sc, F, V>(mut parser: F)
         {
             Ok(succ) => {
                 let end = succ.lexer.parse_span().end().byte;
+                // Nothing was consumed if the parse ended before the start of
+                // the next token: the captured text is empty.
+                let start = std::cmp::min(start, end);
                 let value = &succ.lexer.source_text().text()[start..end];
 
                 Ok(Success {
@@ -153,6 +156,9 @@ pub fn spanned<'text, Sc, F, V>(mut parser: F)
         {
             Ok(succ) => {
                 let end = succ.lexer.parse_span().end();
+                // Nothing was consumed if the parse ended before the start of
+                // the next token: the captured span is empty.
+                let start = if start.byte > end.byte { end } else { start };
                 Ok(Success {
                     value: Spanned {
                         value: succ.value,
